@@ -2,6 +2,7 @@ import Driver.Common
 import W2c2Verif.Model.Instantiate
 import W2c2Verif.Model.InitMem
 import W2c2Verif.Model.NewChild
+import W2c2Verif.Model.InitTables
 
 /-!
   `I inst key=value …` — post-instantiation state (before the start function) of a module description as
@@ -206,10 +207,33 @@ def childCmd (rest : List String) : Option String := do
   | .trap t => some s!"parent-trap {t.code}"
   | .oof => some "parent-oof"
 
+def showTTok : W2c2Verif.Model.InitTables.Tok → String
+  | .kw k => k.text
+  | .tableRef i => s!"R{i}"
+  | .tableUse i => s!"T{i}"
+  | .num n => toString n
+  | .expr e => "E" ++ showCE e
+  | .funcRef f => s!"F{f}"
+  | .bad => "?"
+
+/-- `I inittables pretty=<0|1> ti=<imported tables> tables=<min:max,…> elems=<table>:<c:hex|g:idx>:<f,f…|->;…` — the body of
+    `<module>InitTables` as `Model.InitTables.render` prints it: `text <tokens>`; tokens: the literal chunks, `R<i>` = `&i->t<i>`,
+    `T<i>` = table i used as a value, numbers, `E<c:hex|g:idx>` = the offset expression, `F<f>` = `&<function f>` -/
+def inittablesCmd (rest : List String) : Option String := do
+  let ti ← (kv rest "ti").toNat?
+  let tables ← parsePairs (kv rest "tables")
+  let elems ← (listOf (kv rest "elems") ";").mapM fun t => match t.splitOn ":" with
+    | [tb, a, b, fs] => do
+      some ({ table := (← tb.toNat?), offset := (← parseCE a b), funcs := (← (listOf fs ",").mapM String.toNat?) } : ElemSegD)
+    | _ => none
+  let d : ModDesc := { tableImports := ti, tables, elems }
+  some s!"text {" ".intercalate ((W2c2Verif.Model.InitTables.render (kv rest "pretty" = "1") d).map showTTok)}"
+
 def instCmd (ws : List String) : Option String :=
   match ws with
   | "I" :: "initmem" :: rest => some ((initmemCmd rest).getD "err parse")
   | "I" :: "child" :: rest => some ((childCmd rest).getD "err parse")
+  | "I" :: "inittables" :: rest => some ((inittablesCmd rest).getD "err parse")
   | "I" :: "inst" :: rest =>
     let r : Option String := do
       let (d, res, w, mode) ← instReq rest
